@@ -9,7 +9,7 @@ from checks import ws_common
 
 
 def monitor(out, rpath, cases, chunk=20000):
-    lines = open(rpath).read().splitlines()
+    lines = [l for l in open(rpath).read().split("\n") if l]
     d = os.path.dirname(rpath)
     for c0 in range(0, len(lines), chunk):
         part = lines[c0:c0 + chunk]
@@ -39,7 +39,7 @@ def run(out, tier, seed):
     out.cov["traces_validated_against_impl"] += n
     out.cov["evaluations"] += summary["calls"]
     out.cov["distinct_nontrivial"] += n
-    out.cov["samples"] += [json.loads(l) for l in open(rpath).read().splitlines()[:3]]
+    out.cov["samples"] += [json.loads(l) for l in open(rpath).read().split("\n")[:3] if l]
     out.cov["exhaustive"] = False
     out.cov["rule"] = ("all distinct (kind, file, start, end) ranges reported by 15 query kinds at every token boundary of every file of the "
                        "C10 workspaces (seeds incl. non-ASCII text, single-step damages, multi-step histories); distinct_nontrivial = distinct "
